@@ -113,13 +113,15 @@ def run(ctx):
                              "Flush", "FinishB", "End"], timeout=ctx.pick(300, 1200))
     # 2. spec -> code -> spec: every program up to L
     L = ctx.pick(3, 4)
-    paths = ctx.gen_paths(FAM, "Gen_HttpWriter", "Gen_HttpWriter.cfg", overrides={"L": L})
+    paths = ctx.gen_paths(FAM, "Gen_HttpWriter", "Gen_HttpWriter.cfg",
+                          overrides=ctx.pick({"L": L}, {"L": L, "Statuses": "{204, 304, 404}", "ClVals": "{1, 3}",
+                                                        "InmVersions": '{"1.0", "1.0ka", "1.1"}'}))
     jobs = [(i + 1, extra["cfg"], drv.path_ops(path), {}) for i, (extra, path) in enumerate(paths)]
     traces = framework.pool_map(_job, jobs)
     ctx.validate(FAM, "Trace_HttpWriter", "Trace_HttpWriter.cfg", traces, label="s2c", sig_fn=sig_of)
     ctx.cov["exhaustive"] = True
     # 3. code -> spec: random longer programs, arbitrary bytes, partial socket writes
-    n = ctx.pick(1500, 20000)
+    n = ctx.pick(2500, 20000)
     base = len(jobs)
     rjobs = []
     for i in range(n):
@@ -129,7 +131,7 @@ def run(ctx):
     rtraces = framework.pool_map(_job, rjobs)
     ctx.validate(FAM, "Trace_HttpWriter", "Trace_HttpWriter.cfg", rtraces, label="c2s", sig_fn=sig_of)
     ctx.cov["rule"] = ("programs: every sequence of set_status/set_header/add_header/clear_header/write/flush/finish "
-                       "up to length %d for GET/HEAD/POST x HTTP/1.0, 1.0+keep-alive, 1.1 x If-None-Match absent/matching, "
+                       "up to length %d for GET/HEAD/POST x HTTP/1.0, 1.0+keep-alive, 1.1 (If-None-Match matching: GET/HEAD, quick: 1.1 only), "
                        "executed on the real server and judged by TLC (RespReader on the raw bytes); plus seeded random "
                        "programs (<= 9 ops, arbitrary byte chunks, partial socket writes); distinct = distinct "
                        "(configuration, operation sequence)" % L)
